@@ -19,7 +19,15 @@ RULE = ("a case = a sequence (history) of calls Q(n,k) / QQ(n,k) / number_of_con
         "on random substrates with <=7 vertices, arbitrary labels, random vertex subsets and focal vertices, all k; the "
         "equations on exact polynomial arguments (distinct variables per neighbour, repeated variables, constants), "
         "compared coefficient by coefficient with the model polynomial and judged by the verified checker against the "
-        "exact bond-percolation expectation; non-trivial = at least one in-domain call with a non-zero result; "
+        "exact bond-percolation expectation; THROUGH MessagePassing (2 cases in the corpus, 12 quick / 38 thorough): the K_tau "
+        "(tau 2..5, every focal vertex, heterogeneous messages) and C_n (n 3..9, one message for all neighbours) motif of an "
+        "edge-disjoint covered network evaluated by MessagePassing.resolve_equation(focal, cover label, messages) on ONE "
+        "object per network (iterations=0, theoretical(phi) installs phi), cover labels '<key>-[vertices]-[edges]-<uid>' with "
+        "the integer key chosen per topology in five ways (clique size, EDGE COUNT, index from 1 / from 0, arbitrary), literals "
+        "spelled as list / tuple / without spaces / edges as lists, uids overlapping or disjoint from the vertex labels (up to "
+        "70000), other motifs of the cover touching the motif (pendant edges, triangles, for cycles their CHORDS covered as "
+        "separate 2-cliques), judged by the same checker against the closed form of the motif written in the label; "
+        "non-trivial = at least one in-domain call with a non-zero result; "
         "distinct by the full call list")
 EXHAUSTIVE = {"quick": True, "thorough": True}
 EXPLANATION = ("the full statement of the property is a theorem: C16_holds : C16_full in Props/C16.v (growth round) - "
@@ -33,7 +41,8 @@ EXPLANATION = ("the full statement of the property is a theorem: C16_holds : C16
                "passes the checker for every n (C16_Q_model_meets_check_general). The older bounded theorems (tau<=6, cycle "
                "n<=10, Q=QQ=brute n<=6, Q=cross n<=12) are kept as independent checks. Correspondence exhaustive over (n,k) "
                "for Q n<=12, QQ n<=6, tau<=6, cycle n<=12, and all 4-vertex substrates x vertex subsets x k for the counter, "
-               "plus seeded random substrates")
+               "plus seeded random substrates; the clique / cycle motifs are also evaluated through MessagePassing.resolve_equation "
+               "on covered networks (cover keys not tied to the motif size) and judged by the same checker")
 ASSUMPTIONS = ["networkx Graph.copy / remove_node / remove_edge / edges / is_connected / complete_graph and "
                "itertools.combinations behave as modelled (their results are compared with the model on every case)",
                "math.factorial, int pow and float arithmetic on the small integral floats of omega() are exact"]
@@ -132,6 +141,19 @@ def corpus():
     cs.append({"calls": [_clique_call(3, [X(2), X(2)]), _clique_call(4, [X(2), CONST(1), CONST(0)]),
                          _clique_call(3, [X(2), X(3)], CONST(1)), ["cycle", 3, CONST(1), X(1)],
                          ["cycle", 2, X(2), X(1)], ["cycle", 1, X(2), X(1)]]})
+    # the same equations reached through MessagePassing.resolve_equation: cliques under keys that are not their size,
+    # a 4-, 5- and 6-cycle whose chords are covered by separate 2-cliques
+    import random
+    rng = random.Random(1616)
+    calls = []
+    for tau, km in ((2, "edges"), (3, "index0"), (4, "edges"), (4, "size"), (3, "big")):
+        calls += _mp_clique_calls(rng, tau, _mp_opts(rng, "clique", tau, keymode=km, fmt="list", labels=list(range(10))), 1)
+    cs.append({"calls": calls})
+    calls = []
+    for n, km in ((4, "size"), (5, "index"), (6, "edges")):
+        calls += _mp_cycle_calls(rng, n, _mp_opts(rng, "cycle", n, keymode=km, fmt="list", chords=1.0,
+                                                    labels=list(range(12))), 1)
+    cs.append({"calls": calls})
     return cs
 
 
@@ -280,6 +302,141 @@ def _ncg_history_case(rng, emax=9):
     return {"calls": calls}
 
 
+
+# ------------------------------------------------------------------ the equations reached through MessagePassing
+# MessagePassing.resolve_equation(focal, cover label, messages) is the library's public route to the motif equations:
+# the motif is the one written in the label "<key>-[vertices]-[edges]-<uid>" (key = an integer NAMING the topology --
+# message_passing_mixin.get_motif_topology is int(key); nothing says it is the clique size).  ["mpclique", tau, phi, Hs,
+# opts] / ["mpcycle", n, u, phi, opts] ask for the value of a K_tau / C_n motif of a covered network through that route
+# and are judged by the same verified checker as clique_equation / chordless_cycle_equation (closed form of the motif of
+# the label).  opts = {"m": motif, "others": other motifs of the cover (pendant edges, motifs glued at a vertex, for
+# cycles the CHORDS covered as separate 2-cliques), "focal": vertex, "fmt": spelling of the literals}.
+MP_KEYMODES = ["size", "edges", "index", "index0", "big"]
+MP_FMTS = ["list", "tight", "tuple", "mixed"]
+MP_LABELS = list(range(0, 16)) + [17, 31, 32, 33, 63, 64, 65, 100, 255, 256, 257, 300, 1000, 70000]
+
+
+def _mp_key(mode, n, e, i):
+    if mode == "size":
+        return n if e == tri(n) else 10 * n + 1
+    if mode == "edges":
+        return e if e == tri(n) else 100 * e + 7
+    if mode == "index":
+        return i + 1
+    if mode == "index0":
+        return i
+    return 1000 + 37 * i
+
+
+def _mp_opts(rng, shape, n, keymode=None, fmt=None, chords=0.0, labels=None, uid_mode=None):
+    """a covered network around ONE clique / cycle motif on n vertices"""
+    keymode = keymode or rng.choice(MP_KEYMODES)
+    lab = list(labels or MP_LABELS)
+    rng.shuffle(lab)
+    vs = lab[:n]
+    rest = lab[n:]
+    if shape == "clique":
+        es = [[vs[a], vs[b]] for a in range(n) for b in range(a + 1, n)]
+    else:
+        es = [[vs[a], vs[(a + 1) % n]] for a in range(n)]
+    own = {frozenset(e) for e in es}
+    es = [e if rng.random() < 0.5 else [e[1], e[0]] for e in es]
+    rng.shuffle(es)
+    order = list(vs)
+    rng.shuffle(order)
+    others = []
+    for a in range(n):
+        for b in range(a + 1, n):
+            if frozenset((vs[a], vs[b])) not in own and rng.random() < chords:
+                others.append({"verts": [vs[a], vs[b]], "edges": [[vs[b], vs[a]]]})
+    for _ in range(rng.randint(0, 2)):
+        a = rng.choice(vs)
+        w = rest.pop()
+        if rng.random() < 0.6:
+            others.append({"verts": [w, a], "edges": [[a, w]]})
+        else:
+            x = rest.pop()
+            others.append({"verts": [a, w, x], "edges": [[a, w], [w, x], [x, a]]})
+    idx = [0, 1, 2]
+    rng.shuffle(idx)
+    m = {"verts": order, "edges": es, "key": _mp_key(keymode, n, len(es), idx[0])}
+    for o in others:
+        k = len(o["verts"])
+        same = k == n and len(o["edges"]) == len(es)      # the same topology carries the same key
+        o["key"] = m["key"] if same else _mp_key(keymode, k, len(o["edges"]), idx[1] if k == 2 else idx[2])
+        if not same and o["key"] == m["key"]:
+            o["key"] += 500
+    uid_mode = uid_mode or rng.choice(["low", "high"])
+    ids = rng.sample(range(0, len(others) + 4), len(others) + 1) if uid_mode == "low" else \
+        rng.sample(range(5000, 5100), len(others) + 1)
+    m["id"] = ids[0]
+    for o, i in zip(others, ids[1:]):
+        o["id"] = i
+    return {"m": m, "others": others, "fmt": fmt or rng.choice(MP_FMTS)}
+
+
+def _mp_clique_calls(rng, tau, opts, n_extra=1):
+    """every focal vertex with distinct variables per neighbour; then other H values / phi on the same object"""
+    atoms = [X(2), X(3), X(4), X(5), CONST(1), CONST(0), CONST(2), [[1, [0, 1]], [-1, [0, 0, 1]]]]
+    calls = []
+    for f in opts["m"]["verts"]:
+        calls.append(["mpclique", tau, X(1), [X(i + 2) for i in range(tau - 1)], dict(opts, focal=f)])
+    for _ in range(n_extra):
+        f = rng.choice(opts["m"]["verts"])
+        calls.append(["mpclique", tau, rng.choice([X(1), X(1), CONST(1), [[1, []], [-1, [1]]], CONST(2)]),
+                      [rng.choice(atoms) for _ in range(tau - 1)], dict(opts, focal=f)])
+    return calls
+
+
+def _mp_cycle_calls(rng, n, opts, n_extra=1):
+    calls = []
+    for f in rng.sample(opts["m"]["verts"], min(n, 3)):
+        calls.append(["mpcycle", n, X(2), X(1), dict(opts, focal=f)])
+    for _ in range(n_extra):
+        f = rng.choice(opts["m"]["verts"])
+        calls.append(["mpcycle", n, rng.choice([X(2), X(3), CONST(1), CONST(0), X(1), CONST(3)]),
+                      rng.choice([X(1), X(1), CONST(1), [[1, []], [-1, [1]]], CONST(2)]), dict(opts, focal=f)])
+    return calls
+
+
+def _mp_cases(rng, thorough=False):
+    """structured: every clique size 2..5 under every key mode; every cycle 3..8 with and without its chords covered
+    by foreign 2-cliques; then random ones"""
+    out = []
+    k = 0
+    for km in MP_KEYMODES:
+        calls = []
+        for tau in (2, 3, 4, 5):
+            opts = _mp_opts(rng, "clique", tau, keymode=km, fmt=MP_FMTS[k % len(MP_FMTS)],
+                            labels=list(range(0, 12)) if k % 2 == 0 else None)
+            calls += _mp_clique_calls(rng, tau, opts, n_extra=1)[: (3 if tau == 5 else 99)]
+            k += 1
+        rng.shuffle(calls)
+        out.append({"calls": calls})
+    for ch in (1.0, 0.0, 0.5):
+        calls = []
+        for n in (3, 4, 5, 6, 7, 8):
+            opts = _mp_opts(rng, "cycle", n, keymode=MP_KEYMODES[k % len(MP_KEYMODES)], fmt=MP_FMTS[k % len(MP_FMTS)],
+                            chords=ch if n <= 6 else ch * 0.4)
+            calls += _mp_cycle_calls(rng, n, opts, n_extra=1)
+            k += 1
+        rng.shuffle(calls)
+        out.append({"calls": calls})
+    for _ in range(30 if thorough else 4):
+        calls = []
+        for _ in range(rng.randint(2, 4)):
+            if rng.random() < 0.5:
+                tau = rng.choice([2, 2, 3, 3, 4, 4, 5])
+                calls += _mp_clique_calls(rng, tau, _mp_opts(rng, "clique", tau), n_extra=2)[-4:]
+            else:
+                n = rng.randint(3, 9)
+                calls += _mp_cycle_calls(rng, n, _mp_opts(rng, "cycle", n, chords=rng.choice([0.0, 0.5, 1.0])), n_extra=2)
+        # plain calls of the closed forms interleaved (one interpreter state)
+        calls.append(_clique_call(rng.randint(2, 4)))
+        rng.shuffle(calls)
+        out.append({"calls": calls})
+    return out
+
 def _all_graphs(nv):
     pairs = [[a, b] for a in range(nv) for b in range(a + 1, nv)]
     for mask in range(1 << len(pairs)):
@@ -289,6 +446,9 @@ def _all_graphs(nv):
 def generate(rng, tier):
     thorough = tier == "thorough"
     nmax = 18 if thorough else 12
+    # ---- the equations through MessagePassing.resolve_equation (cheap and discriminating: first)
+    for c in _mp_cases(rng, thorough):
+        yield c
     # ---- Q: every n fresh (top-down recursion on an empty cache), all k, ascending / descending
     for n in range(0, nmax + 1):
         # thorough: the n = 7 sweep is judged by the checker against brute force (2^21 edge subsets)
@@ -466,6 +626,7 @@ def impl(case):
     chordless_cycle_equation = mods[2].chordless_cycle_equation
     graphs = {}
     hs_obj = []          # ONE list object for the Hs argument of every clique call of the case
+    mp_objs = {}         # ONE MessagePassing object per covered network of the case
     out = []
     for call in case["calls"]:
         kind = call[0]
@@ -496,6 +657,8 @@ def impl(case):
             elif kind == "cycle":
                 r = _as_poly_obs(_canon_value(chordless_cycle_equation(call[1], Poly.from_monos(call[2]),
                                                                        Poly.from_monos(call[3]))))
+            elif kind in ("mpclique", "mpcycle"):
+                r = _mp_call(mp_objs, call)
             else:
                 r = ["x", "unknown call"]
         except RecursionError:
@@ -506,6 +669,50 @@ def impl(case):
             r = ["e", type(e).__name__]
         out.append(r)
     return out
+
+
+def _mp_call(mp_objs, call):
+    """value of the K_tau / C_n motif of the covered network opts through MessagePassing.resolve_equation"""
+    import copy
+    import networkx as nx
+    from gcmpy.message_passing.message_passing import MessagePassing
+    from harness.props.c15 import _fmt_label, _fresh_int
+    kind, size, opts = call[0], call[1], call[4]
+    m = opts["m"]
+    key = json.dumps([m, opts["others"], opts["fmt"]], sort_keys=True)
+    if key not in mp_objs:
+        G = nx.Graph(note="net")
+        ins = []
+        for mm in [m] + list(opts["others"]):
+            lab = _fmt_label(mm, opts["fmt"])
+            ins += [(e[0], e[1], lab) for e in mm["edges"]]
+        # edge insertion order interleaves the motifs (deterministic: by the sum of the end points)
+        ins.sort(key=lambda t: ((t[0] + t[1]) % 7, t[0], t[1]))
+        for j, (a, b, lab) in enumerate(ins):
+            G.add_edge(a, b, CoverLabel=lab, w=j)
+        nx.set_node_attributes(G, {v: "v%d" % v for v in G.nodes()}, "lab")
+        # iterations = 0: theoretical(phi) only installs the occupation probability (the public way to set it)
+        mp_objs[key] = [MessagePassing(G, iterations=0), G, _fmt_label(m, opts["fmt"]), None]
+    ent = mp_objs[key]
+    mp, G, label = ent[0], ent[1], ent[2]
+    if kind == "mpclique":
+        phi, vals = Poly.from_monos(call[2]), [Poly.from_monos(h) for h in call[3]]
+    else:
+        phi, vals = Poly.from_monos(call[3]), [Poly.from_monos(call[2])] * (size - 1)
+    pk = json.dumps(call[2] if kind == "mpclique" else call[3])
+    if ent[3] != pk:
+        mp.theoretical(phi)
+        ent[3] = pk
+    focal = opts["focal"]
+    others = [v for v in m["verts"] if v != focal]
+    prods = {_fresh_int(v): h for v, h in zip(others, vals)}
+    keep = list(prods.items())
+    before = copy.deepcopy((list(G.nodes(data=True)), list(G.edges(data=True)), {v: list(G.adj[v]) for v in G.nodes()}))
+    r = _as_poly_obs(_canon_value(mp.resolve_equation(_fresh_int(focal), str(label), prods)))
+    after = (list(G.nodes(data=True)), list(G.edges(data=True)), {v: list(G.adj[v]) for v in G.nodes()})
+    if before != after or len(keep) != len(prods) or any(a[0] != b[0] or a[1] is not b[1] for a, b in zip(keep, prods.items())):
+        r = r + ["input-changed"]
+    return r
 
 
 # ------------------------------------------------------------------ model side
@@ -521,9 +728,9 @@ def _model_tree(call):
         return [1, call[1], call[2]]
     if kind == "ncg":
         return [2, call[1], call[2], call[3], call[4], call[5]]
-    if kind == "clique":
+    if kind in ("clique", "mpclique"):
         return [3, call[1], call[2], call[3]]
-    if kind == "cycle":
+    if kind in ("cycle", "mpcycle"):
         return [4, call[1], call[2], call[3]]
     raise ValueError(kind)
 
@@ -545,6 +752,8 @@ def _plan(case):
 
 
 def _mkey(c):
+    if c[0] in ("mpclique", "mpcycle"):     # the model's answer is the closed form of the motif of the label
+        return json.dumps([c[0][2:]] + c[1:4])
     return json.dumps(c[:6] if c[0] == "ncg" else c)
 
 
@@ -562,7 +771,7 @@ def _dec_model(call, raw):
         return ["x", raw]
     if raw and raw[0] == -1:
         return ["e", EXC.get(raw[1], "outside-model-domain")]
-    if call[0] in ("clique", "cycle"):
+    if call[0] in ("clique", "cycle", "mpclique", "mpcycle"):
         return ["p", 1, canon_monos(raw[1])]
     return ["v", raw[1]]
 
@@ -591,6 +800,13 @@ def _show(call):
         return "clique_equation(tau=%s, phi=%s, Hs=%s)" % tuple(call[1:])
     if call[0] == "cycle":
         return "chordless_cycle_equation(n=%s, u=%s, phi=%s)" % tuple(call[1:])
+    if call[0] in ("mpclique", "mpcycle"):
+        o = call[4]
+        args = ("tau=%s, phi=%s, messages=%s" if call[0] == "mpclique" else "n=%s, u=%s (every neighbour), phi=%s") % tuple(call[1:4])
+        return ("MessagePassing.resolve_equation(focal=%s, label of the %s motif key=%s vertices=%s edges=%s uid=%s; %s) "
+                "[other motifs of the cover: %s; literals spelled %r]"
+                % (o["focal"], "clique" if call[0] == "mpclique" else "cycle", o["m"]["key"], o["m"]["verts"], o["m"]["edges"],
+                   o["m"]["id"], args, [(x["key"], x["verts"]) for x in o["others"]], o["fmt"]))
     return "%s(%s, %s)" % tuple(call)
 
 
@@ -618,9 +834,9 @@ def in_domain(call):
     if kind == "ncg":
         vs = [v for v in call[1] if v == call[4] or v in call[3]]
         return call[5] >= 0 and len(vs) > 0
-    if kind == "clique":
+    if kind in ("clique", "mpclique"):
         return call[1] >= 2 and len(call[3]) == call[1] - 1
-    if kind == "cycle":
+    if kind in ("cycle", "mpcycle"):
         return call[1] >= 3
     return False
 
@@ -633,11 +849,11 @@ def _check_tree(call, obs, deep=False):
         return [0 if kind == "Q" else 1, call[1], call[2], obs[1], 7 if deep else 6]
     if kind == "ncg":
         return [2, call[1], call[2], call[3], call[4], call[5], obs[1]]
-    if kind == "clique":
+    if kind in ("clique", "mpclique"):
         if call[1] > CHECK_TAU_MAX:
             return None
         return [3, call[1], call[2], call[3], obs[1], obs[2]]
-    if kind == "cycle":
+    if kind in ("cycle", "mpcycle"):
         if call[1] > CHECK_CYCLE_MAX:
             return None
         return [4, call[1], call[2], call[3], obs[1], obs[2]]
@@ -696,7 +912,9 @@ WHAT = {"Q": "the number of connected labelled graphs with n vertices and k edge
         "QQ": "the number of connected labelled graphs with n vertices and k edges",
         "ncg": "the number of ways to delete k edges from the induced subgraph and stay connected",
         "clique": "the exact bond-percolation expectation on the clique (as a polynomial)",
-        "cycle": "the exact bond-percolation expectation on the cycle (as a polynomial)"}
+        "cycle": "the exact bond-percolation expectation on the cycle (as a polynomial)",
+        "mpclique": "the exact bond-percolation expectation on the clique written in the cover label (as a polynomial)",
+        "mpcycle": "the exact bond-percolation expectation on the cycle written in the cover label (as a polynomial)"}
 
 
 def check_verdict(case, impl_obs, raws):
@@ -711,7 +929,7 @@ def check_verdict(case, impl_obs, raws):
         if o[-1] == "input-changed":
             return (f"call #{j} {_show(c)} modified its caller's arguments (graph nodes / edges / attribute data / "
                     f"adjacency order, or the ak / Hs list): the counter and the equations are pure queries")
-        if o[0] not in ("v", "p") or (c[0] in ("clique", "cycle")) != (o[0] == "p"):
+        if o[0] not in ("v", "p") or (c[0] in ("clique", "cycle", "mpclique", "mpcycle")) != (o[0] == "p"):
             return f"call #{j} {_show(c)} returned {str(o)[:200]}, which is not {WHAT[c[0]]}"
         if c[0] == "Q" and ("row", c[1]) in uniq:
             raw = raws[uniq[("row", c[1])]]
@@ -766,7 +984,7 @@ def histogram(cases):
     for c in cases:
         for call in c["calls"]:
             h[call[0]] = h.get(call[0], 0) + 1
-            if call[0] in ("Q", "QQ", "clique", "cycle"):
+            if call[0] in ("Q", "QQ", "clique", "cycle", "mpclique", "mpcycle"):
                 k = f"{call[0]}_n={call[1]}"
                 h[k] = h.get(k, 0) + 1
     return h
